@@ -9,6 +9,7 @@
 (*   f     new gas price                   S           expired accounts     *)
 (*   acc   1 / 0: accepted or rejected (a pair for "ab")                    *)
 (*   p, q, l  what the real pool holds afterwards: pending, queued, locals  *)
+(*   pn       pool.Nonce(addr) of every account afterwards                  *)
 (* Every line must be explained by the operator of TxPool.tla for that      *)
 (* operation: some allowed outcome has the same accept/reject pattern and   *)
 (* the same pool content.  Where several outcomes fit (they can differ in   *)
@@ -48,6 +49,7 @@ Acc(e, r) == IF e.op = "ab" THEN <<A1(r[1]), A1(r[2])>> ELSE A1(r)
 
 Explains(e, o) == /\ Acc(e, o.res) = e.acc
                   /\ o.st.pend = SetOf(e.p) /\ o.st.queue = SetOf(e.q) /\ o.st.loc = SetOf(e.l)
+                  /\ \A a \in Accts : o.st.pn[a] = e.pn[a]
 
 Next == /\ i <= Len(Trace)
         /\ \E o \in Outcomes(Trace[i]) : Explains(Trace[i], o) /\ s' = o.st
@@ -57,13 +59,13 @@ Spec == Init /\ [][Next]_vars
 
 TraceInv == /\ PendingGapFree(s) /\ EachAffordable(s) /\ FitsBlockGas(s)
             /\ PendingQueueDisjoint(s) /\ IndexedExactlyOnce(s) /\ MinedGone(s)
-            /\ NonceTracksPending(s) /\ QueuedValid(s) /\ LocalFlagged(s)
+            /\ NonceTracksPending(s) /\ NonceIsNextPending(s) /\ QueuedValid(s) /\ LocalFlagged(s)
             /\ TotalSlotsRespected(s) /\ PendingLimitRespected(s)
 
 \* diagnostic (an invariant that is always true): where no outcome explains the next line, print what
 \* the specification allows there; the runner shows it when the trace is rejected
 Stuck == (i <= Len(Trace) /\ ~\E o \in Outcomes(Trace[i]) : Explains(Trace[i], o))
-           => PrintT(<<"STUCK", i, {[r |-> o.res, p |-> o.st.pend, q |-> o.st.queue, l |-> o.st.loc] : o \in Outcomes(Trace[i])}>>)
+           => PrintT(<<"STUCK", i, {[r |-> o.res, p |-> o.st.pend, q |-> o.st.queue, l |-> o.st.loc, pn |-> o.st.pn] : o \in Outcomes(Trace[i])}>>)
 
 \* on rejection: the matched prefix
 Accepted ==
